@@ -30,7 +30,7 @@ Proof. reflexivity. Qed.
 
 (* ------------------------------------------------------------------ *)
 (* small facts *)
-Lemma split_I_64 I : length I = 64%nat -> split_I I = Ok (firstn 32 I, skipn 32 I).
+Lemma split_I_64 (I : bytes) : length I = 64%nat -> split_I I = Ok (firstn 32 I, skipn 32 I).
 Proof.
   intros H. unfold split_I. rewrite H.
   destruct (Nat.ltb_spec 64 32) as [L|_]; [lia|].
@@ -57,7 +57,7 @@ Proof.
   destruct ((be_Z bs =? 0) || (secp_n <=? be_Z bs)); reflexivity.
 Qed.
 
-Lemma firstn32_length I : length I = 64%nat -> length (firstn 32 I) = 32%nat.
+Lemma firstn32_length (I : bytes) : length I = 64%nat -> length (firstn 32 I) = 32%nat.
 Proof. intros H. rewrite firstn_length, H. reflexivity. Qed.
 
 (* big-endian fixed-width integers *)
@@ -204,7 +204,7 @@ Section Neuter.
   Hypothesis smul_add_G : forall a b, (a + b) *G = ec_add E (a *G) (b *G).
   Hypothesis smul_mod_G : forall a, (a mod secp_n) *G = a *G.
   Hypothesis inf_iff_G : forall a, ec_is_inf E (a *G) = true <-> a mod secp_n = 0.
-  Hypothesis dec_enc : forall c P, ec_is_inf E P = false -> ec_dec E (ec_enc E c P) = Some P.
+  Hypothesis dec_enc_G : forall c a, ec_is_inf E (a *G) = false -> ec_dec E (ec_enc E c (a *G)) = Some (a *G).
 
   Lemma scalar_not_inf k : in_scalar k = true -> ec_is_inf E (k *G) = false.
   Proof.
@@ -225,8 +225,9 @@ Section Neuter.
     replace (HARDENED_KEY_OFFSET <=? i)%N with false by (symmetry; apply N.leb_gt; exact Hi).
     set (I := sha_512_hmac (xs_pub x ++ ser_u32 i) (xs_cc x)).
     destruct (split_I I) as [[il ir]| |]; cbn [bind omap]; try reflexivity.
-    rewrite Hpub at 2. unfold pub_of_priv at 2.
-    rewrite dec_enc by (apply scalar_not_inf; exact Hk). cbn [of_option bind].
+    assert (Hdec : ec_dec E (xs_pub x) = Some (xs_key x *G)).
+    { rewrite Hpub. unfold pub_of_priv. apply dec_enc_G. apply scalar_not_inf. exact Hk. }
+    rewrite Hdec. cbn [of_option bind].
     destruct (secret_of_bytes il) as [ilz| |]; cbn [bind omap]; try reflexivity.
     rewrite <- smul_add_G, <- (smul_mod_G (xs_key x + ilz)).
     set (sum := (xs_key x + ilz) mod secp_n).
@@ -525,6 +526,29 @@ Proof.
     + subst ix. pose proof (le_val_bound (rev ixb)) as B. unfold be_val. rewrite rev_length, Lix in B. exact B.
 Qed.
 
+(* the readers never panic *)
+Lemma bind_np {A B} (e : outcome A) (f : A -> outcome B) :
+  e <> Panic -> (forall a, f a <> Panic) -> bind e f <> Panic.
+Proof. intros He Hf. destruct e; cbn [bind]; [apply Hf | discriminate | contradiction]. Qed.
+Lemma of_option_np {A} (o : option A) : of_option o <> Panic.
+Proof. destruct o; discriminate. Qed.
+Lemma secret_np bs : secret_of_bytes bs <> Panic.
+Proof. unfold secret_of_bytes. destruct (Nat.eqb (length bs) 32); [destruct (in_scalar (be_Z bs))|]; discriminate. Qed.
+
+Ltac np :=
+  repeat (first
+    [ apply of_option_np | apply secret_np | discriminate
+    | apply bind_np; [|let a := fresh "a" in intros a; repeat (destruct a as [a ?])]
+    | match goal with |- (if ?b then _ else _) <> Panic => destruct b end ]).
+
+Lemma xkey_header_np v bs : xkey_header v bs <> Panic.
+Proof. unfold xkey_header. np. Qed.
+
+Theorem xprv_from_string_total E s : xprv_from_string E s <> Panic.
+Proof. unfold xprv_from_string. np. Qed.
+Theorem xpub_from_string_total E s : xpub_from_string E s <> Panic.
+Proof. unfold xpub_from_string. np. Qed.
+
 (* corrupted input: undecodable, wrong length, or a checksum that is not the double SHA-256 of the first 78 bytes *)
 Theorem corrupt_rejected E s :
   (match b58_decode s with
@@ -547,32 +571,102 @@ Proof.
     - apply Hc'. rewrite skipn_app, Hp, Nat.sub_diag, skipn_O.
       rewrite <- Hp at 1. rewrite skipn_all. cbn [app].
       rewrite firstn_app, Hp, Nat.sub_diag, firstn_O, app_nil_r.
-      rewrite <- Hp at 2. rewrite firstn_all. reflexivity. }
+      rewrite (firstn_all2 p) by lia. reflexivity. }
   split.
   - apply Hnp.
     + intros x Hx. pose proof (xprv_string_roundtrip E s x Hx) as [Hs (_ & _ & _ & Hcc & Hfp & _)].
       unfold xprv_from_string in Hx. destruct (b58_decode s) as [bs|] eqn:Hb; [|discriminate].
       apply (Key bs (xprv_payload x) eq_refl Hs). apply xprv_payload_length; assumption.
-    + unfold xprv_from_string, xkey_header.
-      repeat (match goal with
-              | |- bind ?e _ <> Panic => let r := fresh in destruct e as [r| |] eqn:?; cbn [bind]; try discriminate
-              | |- (let (_, _) := ?p in _) <> _ => destruct p
-              | |- (if ?b then _ else _) <> Panic => destruct b; try discriminate
-              | H : of_option ?o = Panic |- _ => destruct o; discriminate
-              | H : bind ?e _ = Panic |- _ => destruct e as [?| |] eqn:?; cbn [bind] in H; try discriminate
-              | H : secret_of_bytes ?b = Panic |- _ =>
-                  unfold secret_of_bytes in H; destruct (Nat.eqb (length b) 32); [destruct (in_scalar (be_Z b))|]; discriminate
-              end).
+    + apply xprv_from_string_total.
   - apply Hnp.
     + intros x Hx. pose proof (xpub_string_roundtrip E s x Hx) as [Hs (Hp & _ & Hcc & Hfp & _)].
       unfold xpub_from_string in Hx. destruct (b58_decode s) as [bs|] eqn:Hb; [|discriminate].
       apply (Key bs (xpub_payload x) eq_refl Hs). apply xpub_payload_length; assumption.
-    + unfold xpub_from_string, xkey_header.
-      repeat (match goal with
-              | |- bind ?e _ <> Panic => let r := fresh in destruct e as [r| |] eqn:?; cbn [bind]; try discriminate
-              | |- (let (_, _) := ?p in _) <> _ => destruct p
-              | |- (if ?b then _ else _) <> Panic => destruct b; try discriminate
-              | H : of_option ?o = Panic |- _ => destruct o; discriminate
-              | H : bind ?e _ = Panic |- _ => destruct e as [?| |] eqn:?; cbn [bind] in H; try discriminate
-              end).
+    + apply xpub_from_string_total.
+Qed.
+
+(* ------------------------------------------------------------------ *)
+(* The group-law premises used above are jointly satisfiable: the additive group of integers modulo n
+   with generator 1 is an [ec_ops] instance that satisfies all of them (and on which the model runs
+   quickly).  This is a consistency check of the premises only; it says nothing about secp256k1. *)
+Definition toy_dec (bs : bytes) : option Z :=
+  match bs with
+  | t :: r => if Nat.eqb (length r) 32 then (if in_scalar (be_Z r) then Some (be_Z r) else None) else None
+  | [] => None
+  end.
+Definition ec_toy : ec_ops :=
+  MkEc Z (fun a b => (a + b) mod secp_n) (fun k a => (k * a) mod secp_n) 1 (fun a => a =? 0)
+       (fun c a => (if c then x02 else x04) :: be32 a) toy_dec.
+
+Lemma toy_smul_add_G a b :
+  ec_smul ec_toy (a + b) (ec_G ec_toy) = ec_add ec_toy (ec_smul ec_toy a (ec_G ec_toy)) (ec_smul ec_toy b (ec_G ec_toy)).
+Proof. cbn [ec_smul ec_add ec_G ec_toy]. rewrite !Z.mul_1_r. apply Zplus_mod. Qed.
+Lemma toy_smul_mod_G a : ec_smul ec_toy (a mod secp_n) (ec_G ec_toy) = ec_smul ec_toy a (ec_G ec_toy).
+Proof. cbn [ec_smul ec_G ec_toy]. rewrite !Z.mul_1_r. apply Zmod_mod. Qed.
+Lemma toy_inf_iff_G a : ec_is_inf ec_toy (ec_smul ec_toy a (ec_G ec_toy)) = true <-> a mod secp_n = 0.
+Proof. cbn [ec_is_inf ec_smul ec_G ec_toy]. rewrite Z.mul_1_r. apply Z.eqb_eq. Qed.
+Lemma toy_dec_enc_G c a :
+  ec_is_inf ec_toy (ec_smul ec_toy a (ec_G ec_toy)) = false ->
+  ec_dec ec_toy (ec_enc ec_toy c (ec_smul ec_toy a (ec_G ec_toy))) = Some (ec_smul ec_toy a (ec_G ec_toy)).
+Proof.
+  cbn [ec_is_inf ec_smul ec_G ec_toy ec_dec ec_enc]. rewrite Z.mul_1_r. intros H. apply Z.eqb_neq in H.
+  pose proof (mod_n_range a) as R. pose proof secp_n_lt as L.
+  unfold toy_dec. rewrite be32_length, Nat.eqb_refl, be_Z_be32 by lia.
+  replace (in_scalar (a mod secp_n)) with true; [reflexivity|].
+  symmetry. unfold in_scalar. apply andb_true_iff. rewrite Z.leb_le, Z.ltb_lt. lia.
+Qed.
+Lemma toy_add_comm P Q : ec_add ec_toy P Q = ec_add ec_toy Q P.
+Proof. cbn [ec_add ec_toy]. rewrite Z.add_comm. reflexivity. Qed.
+
+(* the premises of neuter_commutes as one predicate (what is assumed of k256's secp256k1 arithmetic) *)
+Definition ec_group_laws (E : ec_ops) : Prop :=
+  (forall a b, ec_smul E (a + b) (ec_G E) = ec_add E (ec_smul E a (ec_G E)) (ec_smul E b (ec_G E))) /\
+  (forall a, ec_smul E (a mod secp_n) (ec_G E) = ec_smul E a (ec_G E)) /\
+  (forall a, ec_is_inf E (ec_smul E a (ec_G E)) = true <-> a mod secp_n = 0) /\
+  (forall c a, ec_is_inf E (ec_smul E a (ec_G E)) = false ->
+               ec_dec E (ec_enc E c (ec_smul E a (ec_G E))) = Some (ec_smul E a (ec_G E))).
+
+Theorem neuter_commutes_laws E x i :
+  ec_group_laws E ->
+  in_scalar (xs_key x) = true ->
+  xs_pub x = pub_of_priv E (xs_key x) (xs_comp x) ->
+  (i < 2 ^ 31)%N ->
+  omap xpub_from_xprv (xprv_derive E x i) = xpub_derive E (xpub_from_xprv x) i.
+Proof. intros (H1 & H2 & H3 & H4). apply neuter_commutes; assumption. Qed.
+
+Lemma toy_group_laws : ec_group_laws ec_toy.
+Proof.
+  split; [exact toy_smul_add_G|]. split; [exact toy_smul_mod_G|]. split; [exact toy_inf_iff_G | exact toy_dec_enc_G].
+Qed.
+
+(* the invariant that neuter_commutes asks of the parent holds for every key the library can produce *)
+Lemma from_seed_invariant E seed x :
+  xprv_from_seed E seed = Ok x -> in_scalar (xs_key x) = true /\ xs_pub x = pub_of_priv E (xs_key x) (xs_comp x).
+Proof.
+  unfold xprv_from_seed. intros H.
+  apply bind_ok_inv in H. destruct H as ([il ir] & _ & H).
+  apply bind_ok_inv in H. destruct H as (k & Hk & H). inversion H; subst x; clear H. cbn [xs_key xs_pub xs_comp].
+  split; [|reflexivity]. unfold secret_of_bytes in Hk.
+  destruct (Nat.eqb (length il) 32); [|discriminate]. cbv zeta in Hk.
+  destruct (in_scalar (be_Z il)) eqn:Es; [|discriminate]. inversion Hk; subst k. exact Es.
+Qed.
+
+Lemma derive_invariant E x i y :
+  xprv_derive E x i = Ok y -> in_scalar (xs_key y) = true /\ xs_pub y = pub_of_priv E (xs_key y) (xs_comp y).
+Proof.
+  unfold xprv_derive. intros H.
+  apply bind_ok_inv in H. destruct H as ([il ir] & _ & H).
+  apply bind_ok_inv in H. destruct H as (ilz & _ & H).
+  set (sum := (xs_key x + ilz) mod secp_n) in *.
+  destruct (Z.eqb_spec sum 0) as [E0|N0]; [discriminate|].
+  destruct (xs_depth x =? 255)%N; [discriminate|]. inversion H; subst y; clear H. cbn [xs_key xs_pub xs_comp].
+  split; [|reflexivity]. pose proof (mod_n_range (xs_key x + ilz)) as R. fold sum in R.
+  unfold in_scalar. apply andb_true_iff. rewrite Z.leb_le, Z.ltb_lt. lia.
+Qed.
+
+Lemma from_string_invariant E s x :
+  xprv_from_string E s = Ok x -> in_scalar (xs_key x) = true /\ xs_pub x = pub_of_priv E (xs_key x) (xs_comp x).
+Proof.
+  intros H. apply xprv_string_roundtrip in H. destruct H as [_ (Hk & Hc & Hp & _)].
+  split; [exact Hk|]. rewrite Hc. exact Hp.
 Qed.
